@@ -424,7 +424,11 @@ def replay_native(case):
         if not os.path.exists(exe):
             results[prof] = {'rc': None, 'out': 'replay binary missing'}
             continue
-        p = subprocess.run([exe, json.dumps(case)], capture_output=True, text=True, timeout=600)
+        try:
+            p = subprocess.run([exe, json.dumps(case)], capture_output=True, text=True, timeout=1800)
+        except subprocess.TimeoutExpired:
+            results[prof] = {'rc': None, 'out': 'replay timed out'}
+            continue
         results[prof] = {'rc': p.returncode, 'out': (p.stdout + p.stderr)[-1500:]}
     reproduced = any(r['rc'] == 1 for r in results.values())
     return reproduced, results
@@ -519,9 +523,29 @@ def main():
                 write_evidence(pid, prop, args.tier, seed, [], hashes, time.time() - t0, 0, note='libm contract validation failed')
                 return 2
             log('[%s] libm contracts validated on the platform libm (2e6 seeded random arguments + interval end points +-16 ulp, both profiles)' % pid)
-        jobs = args.jobs or max(1, min(14, int(TOTAL_MEM_GB // max(h.get('mem_gb', 12) for h in harnesses))))
-        with cf.ThreadPoolExecutor(max_workers=jobs) as ex:
-            futs = {ex.submit(run_harness_own_target, h, names[h['name']], snap, scratch, logdir, args.keep): h for h in order}
+        # memory-aware scheduling: at most MAX_JOBS harnesses at once and the sum of their address-space caps <= TOTAL_MEM_GB
+        import threading
+        max_jobs = args.jobs or int(os.environ.get('VERIF_MAX_JOBS', '14'))
+        cond = threading.Condition()
+        state = {'mem': 0.0, 'n': 0}
+
+        def guarded(h):
+            need = min(float(h.get('mem_gb', 12)), float(TOTAL_MEM_GB))
+            with cond:
+                while state['n'] >= max_jobs or (state['n'] > 0 and state['mem'] + need > TOTAL_MEM_GB):
+                    cond.wait()
+                state['n'] += 1
+                state['mem'] += need
+            try:
+                return run_harness_own_target(h, names[h['name']], snap, scratch, logdir, args.keep)
+            finally:
+                with cond:
+                    state['n'] -= 1
+                    state['mem'] -= need
+                    cond.notify_all()
+
+        with cf.ThreadPoolExecutor(max_workers=max(len(order), 1)) as ex:
+            futs = {ex.submit(guarded, h): h for h in order}
             for fut in cf.as_completed(futs):
                 h = futs[fut]
                 r = fut.result()
@@ -558,6 +582,14 @@ def main():
                     reproduced, detail = replay_native(case)
                     if reproduced:
                         break
+            # replay search (small enumerable domains, e.g. the BMOC shapes): a native search for a witness when Kani printed no
+            # playback test for the failed check or the exact inputs fail only in the modelled (dev) profile
+            if not reproduced and h.get('replay_search'):
+                case2 = {'property': pid, 'harness': h['name'], 'fn': h['replay_search'], 'args': {}, 'const': h.get('replay_const', {}),
+                         'failed_check': (r.get('prop_failures') or [{}])[0].get('desc', ''), 'note': 'native search over the harness domain'}
+                reproduced, detail = replay_native(case2)
+                if reproduced:
+                    case = case2
             r['counterexample'] = case
             r['replay'] = detail
             r['reproduced'] = reproduced
